@@ -451,6 +451,54 @@ func checkC02(res *Result) {
 		}
 	}
 
+	// R5b: dedupeIRIs never hands its input back, and prepare always consults both sources
+	if f := p.MustFunc(res, "C02-R5", "dedupeIRIs"); f != nil {
+		for _, r := range returnsIn(f) {
+			for _, v := range r.Results {
+				// through merges: no incoming value is the first parameter itself
+				bad := false
+				var walk func(x ssa.Value, d int)
+				walk = func(x ssa.Value, d int) {
+					if d > 5 {
+						return
+					}
+					switch y := x.(type) {
+					case *ssa.Parameter:
+						bad = true
+					case *ssa.Phi:
+						for _, e := range y.Edges {
+							walk(e, d+1)
+						}
+					case *ssa.Slice:
+						walk(y.X, d+1)
+					}
+				}
+				walk(v, 0)
+				res.check(!bad, "C02-R5", fname(f), p.pos(r), "what dedupeIRIs returns has been through the ignore / seen filter (never the input list itself)", "a return hands back the parameter: the sender's own inbox (the ignore list) and duplicates are not removed on that path")
+			}
+		}
+	}
+	if f := p.Func("sideEffectActor.prepare"); f != nil {
+		ff := computeFacts(f)
+		for _, pat := range []string{"sideEffectActor.resolveActors", "Database.InboxForActor"} {
+			for _, c := range findCalls(E, f, pat) {
+				if pat == "Database.InboxForActor" {
+					continue // inside the loop over the recipients (C02-R9 covers it)
+				}
+				okAll := true
+				for _, r := range returnsIn(f) {
+					mn, _ := ff.errStatus(r, 1)
+					if !mn || !ff.reachable(r) {
+						continue
+					}
+					if !dominates(c, r) {
+						okAll = false
+					}
+				}
+				res.check(okAll, "C02-R5", fname(f), p.pos(c), "every success return of prepare has gone through the remote resolution of the recipients not known to the Database", "resolveActors is conditional: on some path addressed actors whose inbox the Database does not know are never resolved")
+			}
+		}
+	}
 	// R9: every recipient is tried
 	res.Rule("C02-R9", "every recipient is tried: each way round the loop of resolveActors passes through the dereference (no element is skipped on a condition other than the depth limit checked before the loop), and each way round the stored-inbox loop of prepare passes through InboxForActor")
 	if f := p.MustFunc(res, "C02-R9", "sideEffectActor.resolveActors"); f != nil {
